@@ -71,7 +71,7 @@ func fieldReadsIn(p *core.Program, fd *core.FuncDecl) map[string]string {
 			f := st.Field(ix)
 			if nt, ok := t.(*types.Named); ok && nt.Obj().Pkg() != nil && isAPIPkg(nt.Obj().Pkg().Path()) {
 				if i == len(idx)-1 || !f.Embedded() {
-					k := nt.Obj().Name() + "." + f.Name()
+					k := nt.Obj().Name() + "." + core.RefName(f)
 					if _, seen := out[k]; !seen {
 						out[k] = p.Pos(se.Pos())
 					}
